@@ -24,7 +24,7 @@ def evict_skeleton(fn, state_ty, key_ty, val_ty, cap_field_owner):
     POP = call(r"= LruIndex::<(\w+::)?%s>::pop_lru\(" % key_ty, name="lru.pop_lru")
     INS_NEW = call(r"= LruIndex::<(\w+::)?%s>::insert_new\(" % key_ty, name="lru.insert_new")
     LEN = call(r"= HashMap::<(\w+::)?%s, (\w+::)?%s>::len\(" % (key_ty, val_ty), name="state.cache.len()")
-    AT_CAP = Arm(r"^Ge\(call HashMap::<(\w+::)?%s, (\w+::)?%s>::len, \(\(\*\{arg\(_1: &%s\)\}\)\.\d+: usize\)\)$" % (key_ty, val_ty, cap_field_owner), {"otherwise"}, name="len >= capacity")
+    AT_CAP = Arm(r"^(Ge|Gt|Le|Lt|Eq|Ne)\(call HashMap::<(\w+::)?%s, (\w+::)?%s>::len, \(\(\*\{arg\(_1: &%s\)\}\)\.\d+: usize\)\)$" % (key_ty, val_ty, cap_field_owner), {"otherwise"}, name="len >= capacity")
     return allof(
         precedes(fn, LEN, INS_NEW),
         follows(fn, AT_CAP, POP, exit="any", exit_ev=INS_NEW),
@@ -46,13 +46,13 @@ MOS = [
        functions=[("vector_cache.rs", "insert")]),
     MO("O20.5/semantic", "SemanticAdapter::cache_embedding: len >= max_cached_embeddings test precedes the insert and evicts on that arm, under the cache_state write lock",
        allof(precedes("semantic_adapter::SemanticAdapter::cache_embedding", call(r"= IndexMap::<u64, Vec<f32>>::len\(", name="entries.len()"), call(r"= IndexMap::<u64, Vec<f32>>::insert\(", name="entries.insert")),
-             follows("semantic_adapter::SemanticAdapter::cache_embedding", Arm(r"^Ge\(call IndexMap::<u64, Vec<f32>>::len, ", {"otherwise"}, name="len >= max_cached_embeddings"),
+             follows("semantic_adapter::SemanticAdapter::cache_embedding", Arm(r"^(Ge|Gt)\(call IndexMap::<u64, Vec<f32>>::len, ", {"otherwise"}, name="len >= max_cached_embeddings"),
                      call(r"= IndexMap::<u64, Vec<f32>>::shift_remove_index\(", name="entries.shift_remove_index(0)"), exit="any", exit_ev=call(r"= IndexMap::<u64, Vec<f32>>::insert\(", name="entries.insert")),
              held("semantic_adapter::SemanticAdapter::cache_embedding", call(r"= RwLock::<(\w+::)?SemanticCacheState>::write\(|= RwLock::<.*>::write\(", name="cache_state.write()"), call(r"= IndexMap::<u64, Vec<f32>>::insert\(", name="entries.insert"))),
        functions=[("semantic_adapter.rs", "cache_embedding")]),
     MO("O20.4/hard_limit", "TieredEngine::insert: emergency drain only (and always) on the len >= hard_limit arm, before the hot insert; a failed drain rejects the insert; the drain precedes reconciliation",
-       allof(only_via(T + "insert", call(r"= TieredEngine::emergency_flush_hot_tier\(", name="emergency_flush_hot_tier"), Arm(r"^Ge\(call HotTier::len, ", {"otherwise"}, name="hot_tier.len() >= hard_limit")),
-             follows(T + "insert", Arm(r"^Ge\(call HotTier::len, ", {"otherwise"}, name="hot_tier.len() >= hard_limit"), call(r"= TieredEngine::emergency_flush_hot_tier\(", name="emergency_flush_hot_tier"),
+       allof(only_via(T + "insert", call(r"= TieredEngine::emergency_flush_hot_tier\(", name="emergency_flush_hot_tier"), Arm(r"^(Ge|Gt)\(call HotTier::len, ", {"otherwise"}, name="hot_tier.len() >= hard_limit")),
+             follows(T + "insert", Arm(r"^(Ge|Gt)\(call HotTier::len, ", {"otherwise"}, name="hot_tier.len() >= hard_limit"), call(r"= TieredEngine::emergency_flush_hot_tier\(", name="emergency_flush_hot_tier"),
                      exit="any", exit_ev=call(r"= HotTier::insert_with_coherence\(", name="hot_tier.insert_with_coherence")),
              never(T + "insert", call(r"= HotTier::insert_with_coherence\(", name="hot_tier.insert_with_coherence"), frm=Arm(r"^discr\(call TieredEngine::emergency_flush_hot_tier\)$", {"1"}, name="emergency flush -> Err")),
              precedes(T + "insert", call(r"= HotTier::len\(", name="hot_tier.len()"), call(r"= HotTier::insert_with_coherence\(", name="hot_tier.insert_with_coherence")),
